@@ -170,11 +170,32 @@ def classify_diff(comps):
     return "differs:" + "/".join(comps[-2:])[:70]
 
 
+def prefix_battery():
+    """prefix operators stacked on each other, on parenthesised numbers / negative numbers / expressions, and as the
+    right operand of a binary operator: the texts where a renderer for a prefix operator can run two signs together
+    (`--a` is a comment), fold a sign into a number (`-(1)` is not `-1`) or lose its parentheses"""
+    P = ["-", "+", "~", "not "]
+    out = []
+    for p in P:
+        for q in P:
+            out.append("select %s %sa from t" % (p, q))
+            out.append("select %s(%sa) from t" % (p, q))
+            out.append("select b, %s(%s(a + b)) * 2 as c, d from t where e = 1" % (p, q))
+        for x in ["1", "1.5e-7", "-1", "a + b", "f(a)", "(a)", "a * b", "- (a + b)"]:
+            out.append("select %s(%s) from t" % (p, x))
+            out.append("select %s(%s) * 2 from t" % (p, x))
+    for b in ["-", "+", "*", "||"]:
+        for x in ["-b", "(-b)", "-1", "(-1)", "- -b", "~b", "(~b)"]:
+            out.append("select a %s %s from t" % (b, x))
+    return out
+
+
 def run(ctx, scale=1):
     rep = ctx.rep
     R = C.real()
     bad_edges = known_c04_edges()
     stmts = pool.statements(ctx, n_gen=(800 if ctx.quick else 12000) * scale)
+    stmts += [{"sql": q, "dialect": "common", "origin": "prefix-battery"} for q in prefix_battery()]
     g = Q.QueryGen(ctx.rng, ctx.gen["ops"])
     for _ in range((800 if ctx.quick else 15000) * scale):
         g.n = 0
